@@ -20,6 +20,8 @@ CONSTANTS Ctx <- McCtxTerm
  BGL = {}
  BoxFrom = {"a4"}
  BoxTo = {"a1", "a2"}
+ BoxSeqs = {}
+ SpendFrom = {}
  RewFrom = {"F", "a4"}
  RewTerms = {0, 1}
  RewAmt = {0, 3, 500, 300000, 600000}
